@@ -8,7 +8,8 @@
    Statements only; proofs in proofs/Cql*.v. *)
 From Coq Require Import ZArith List String Bool.
 From GCNP Require Import base.GoInt base.Bytes spec.SpecCql model.CqlWire model.CqlContainers model.CqlTyping model.CqlCases
-  proofs.CqlBytesLemmas proofs.CqlVarintProofs proofs.CqlVintProofs proofs.CqlScalarProofs proofs.CqlContainerProofs.
+  proofs.CqlBytesLemmas proofs.CqlVarintProofs proofs.CqlVintProofs proofs.CqlScalarProofs proofs.CqlContainerProofs
+  model.CqlGoVal model.CqlGoCases proofs.CqlGoValProofs.
 Import ListNotations.
 Open Scope Z_scope.
 
@@ -56,10 +57,51 @@ Example C11_fieldless_tuple_encodes_null :
   m_encode 4 (TTuple []) (VTuple []) = OK None /\ m_decode 4 (TTuple []) None = OK VNull.
 Proof. vm_compute. split; reflexivity. Qed.
 
-(* Go-representation layer: what is proved here is that all accepted representations of one abstract value meet in the same
-   intermediate value, so the theorems above apply to each of them; the extractor / injector code itself is exercised, not modelled. *)
-Theorem C11_representations_partial : forall v t x o,
-  wf_type t = true -> wt t x = true -> m_encode v t x = OK o -> olen o < 2 ^ 31 ->
-  m_decode v t o = OK x /\ m_decode v t o <> PANIC.
-Proof. intros v t x o Hwf Hwt He Hs. split; [exact (round_trip v t Hwf x o Hwt He Hs)|apply decode_no_panic]. Qed.
-Print Assumptions C11_representations_partial.
+(* ---- Go-representation layer (model/CqlGoVal.v: Go types gty and values gval for slices, arrays, []interface{}, maps, map[string]interface{},
+   structs with `cassandra` tags and case folding, pointers, nil-able values, interface{}; extractors, injectors, reflection helpers,
+   PreferredGoType with the D1 pointer-wrapped keys; tied to the code by the correspondence run incl. destination reuse).
+
+   Encode, full for the modelled universe: from EVERY modelled source representation, Encode is the abstract encoder applied to the CQL
+   value the representation denotes (gabs) - so C12 and the round trip above apply to every accepted representation of a value. *)
+Theorem C11_representations_encode : forall v t src x, gabs t src = Some x -> g_encode v t src = m_encode v t x.
+Proof. exact g_encode_abs. Qed.
+Print Assumptions C11_representations_encode.
+
+(* Round trip at the representation level, by induction on the type tree: encode from ANY modelled representation, decode into a
+   fresh destination of any Go type that can hold the value ([fits]: leaves, slices, arrays, interface{} / []interface{} with preferred
+   types, structs / slices / arrays for tuples, slices / arrays for UDTs - in particular the same representation whenever it is of
+   these kinds) returns a Go value denoting the same CQL value.  NOT covered by [fits] (correspondence run only): map destinations,
+   UDT into struct-by-name / map[string]V.  Known exception on the encode side, visible in gabs: a NaN map key loses its value. *)
+Theorem C11_representations_decode_fitting : forall v t gt g x o gt',
+  wf_type t = true -> gabs t (Some (gt, g)) = Some x -> wt t x = true -> isnull x = false ->
+  g_encode v t (Some (gt, g)) = OK o -> olen o < 2 ^ 31 -> fits t gt' x ->
+  exists g', g_decode v t gt' (gzero gt') o = OK (false, g') /\ gabs t (elem_src gt' g') = Some x.
+Proof. exact representations_round_trip. Qed.
+Print Assumptions C11_representations_decode_fitting.
+
+Definition c11_rep_type : cqltype := TList (TTuple [TScalar SInt; TList (TScalar SVarchar)]).
+Definition c11_rep_gty : gty := GSlice (GStruct [("A", "", GPtr (GLeaf SInt LVal)); ("B", "", GSlice (GLeaf SVarchar LVal))]%string).
+Definition c11_rep_val : gval :=
+  GVSlice [GVStruct [GVPtr (GVLeaf (VInt 5)); GVSlice [GVLeaf (VBytes [97]); GVLeaf (VBytes [])]]; GVStruct [GVNilPtr; GVNilSlice]].
+Definition c11_rep_abs : cval := VList [VTuple [VInt 5; VList [VBytes [97]; VBytes []]]; VTuple [VNull; VNull]].
+Example C11_representations_nonvacuous :
+  gabs c11_rep_type (Some (c11_rep_gty, c11_rep_val)) = Some c11_rep_abs /\ fits c11_rep_type c11_rep_gty c11_rep_abs /\
+  match g_encode 4 c11_rep_type (Some (c11_rep_gty, c11_rep_val)) with
+  | OK o => match g_decode 4 c11_rep_type c11_rep_gty (gzero c11_rep_gty) o with OK (false, g') => gval_eq g' c11_rep_val | _ => false end
+  | _ => false
+  end = true /\
+  (* destination reuse: a shorter list decoded into a slice variable holding a longer value shrinks it; an array keeps its tail *)
+  g_decode 4 (TList (TScalar SInt)) (GSlice (GLeaf SInt LVal)) (GVSlice [GVLeaf (VInt 7); GVLeaf (VInt 8); GVLeaf (VInt 9)]) (Some (hx "000000010000000400000001"))
+    = OK (false, GVSlice [GVLeaf (VInt 1)]) /\
+  g_decode 4 (TList (TScalar SInt)) (GArray 3 (GLeaf SInt LVal)) (GVArray [GVLeaf (VInt 7); GVLeaf (VInt 8); GVLeaf (VInt 9)]) (Some (hx "000000010000000400000001"))
+    = OK (false, GVArray [GVLeaf (VInt 1); GVLeaf (VInt 8); GVLeaf (VInt 9)]).
+Proof.
+  split; [vm_compute; reflexivity|]. split; [|vm_compute; repeat split; reflexivity].
+  cbn. repeat (constructor || split); reflexivity.
+Qed.
+
+(* the known finding, in the model: a NaN key is not found again by the map extractor, its value is encoded as NULL *)
+Example C11_nan_key_loses_value :
+  gabs (TMap (TScalar SDouble) (TScalar SInt)) (Some (GMap (GLeaf SDouble LVal) (GLeaf SInt LVal), GVMap [(GVLeaf (VFloat 9221120237041090560), GVLeaf (VInt 5))]))
+  = Some (VMap [(VFloat 9221120237041090560, VNull)]).
+Proof. vm_compute. reflexivity. Qed.
